@@ -103,6 +103,10 @@ def run(ctx):
     for k, (kind, aln) in enumerate(alns):
         for f in ("fasta", "msf", "clu"):
             path = os.path.join(sc, "c15_%d.%s" % (k, f))
+            if k % 5 == 2:
+                # long output file names (the MSF header line carries the basename): up to the 255-byte limit of a file name
+                stem = "c15_%d_" % k
+                path = os.path.join(sc, stem + "n" * (rng.choice([150, 190, 200, 230, 250]) - len(stem) - len(f) - 1) + "." + f)
             lines.append("writealn %s %s %d %s" % (path, f, 1 if kind == "dna" else 0, alngen.aln_args(aln)))
             meta.append((k, f, path))
     chunks = [list(range(i, min(i + 30, len(lines)))) for i in range(0, len(lines), 30)]
